@@ -152,7 +152,15 @@ def run(chk):
                     kend = len(P.blocks) - 1
                     rvs = P.at(F, R.ops[0], kend)
                     fl = [I for I in P.insts if I.op == "call" and "_mgr_flush_" in (I.callee or "")]
-                    if F.is_null(rvs) or rvs == 0:
+                    # the returned value may be a call result of an earlier loop iteration: the facts established
+                    # after its last execution on this path say whether that dynamic instance is NULL
+                    dyn_null = None
+                    if isinstance(rvs, ir.Inst) and rvs.op == "call":
+                        plast = max((p for p, J in enumerate(P.insts) if J.id == rvs.id), default=-1)
+                        for (val, pred, c, t, br, pos), k in zip(P.facts, P.fact_k):
+                            if pos > plast and c == 0 and pred in ("eq", "ne") and P.same(P.at(F, val, k), rvs):
+                                dyn_null = (pred == "eq")
+                    if F.is_null(rvs) or rvs == 0 or dyn_null is True:
                         # must carry the fact: (last) manager flush result == NULL
                         ok = False
                         for (val, pred, c, t, br, pos), k in zip(P.facts, P.fact_k):
@@ -165,8 +173,7 @@ def run(chk):
                         if not (isinstance(rvs, ir.Inst) and rvs.op == "call" and "resubmit" in (rvs.callee or "")):
                             bad3 = (R, "returns a context that is not the result of resubmit")
                         else:
-                            nn = any(pred == "ne" and c == 0 and P.same(P.at(F, val, k), rvs) for (val, pred, c, t, br, pos), k in zip(P.facts, P.fact_k))
-                            if not nn:
+                            if dyn_null is not False:
                                 bad3 = (R, "returns resubmit's result without having checked it is non-NULL")
                 chk.obligation("R06.3-c", bad3 is None, key=(src, F.name), sample={"unit": src, "function": F.name})
                 if bad3:
